@@ -91,6 +91,23 @@ impl Executor for BashScriptExecutor {
                 return Err(ExecutionError::Skipped(0));
             }
             ExitStatus::Timeout(_) => {
+                // a test case that ended with the skip code before the time ran
+                // out skips the document all the same
+                let mut skipped = None;
+                let _ = iterate_divided_output(
+                    "STDOUT",
+                    (&output.stdout).into(),
+                    &salt,
+                    |index: usize, _out: &[u8], exit_code: i32| {
+                        if skipped.is_none() && exit_code == skip_document_code {
+                            skipped = Some(index);
+                        }
+                        Ok(())
+                    },
+                );
+                if let Some(index) = skipped {
+                    return Err(ExecutionError::Skipped(index));
+                }
                 return Err(ExecutionError::Timeout(
                     ExecutionTimeout::Total,
                     vec![Output {
